@@ -135,7 +135,7 @@ theorem c06_savepoint_released (cfg : Cfg) (s : St) (body : List Ev)
   exact ⟨⟨rfl, rfl, rfl, rfl⟩, rfl⟩
 
 /-- what a rollback to a savepoint leaves of the unit of work: what it knew at SAVEPOINT, with an empty cache -/
-def uowAtSavepoint (u : Option Uow) : Option Uow := u.map (fun u => { u with vobjs := [], pending := [] })
+def uowAtSavepoint (u : Option Uow) : Option Uow := u.map (fun u => { u with vobjs := [] })
 
 /-- the whole state after a rolled-back savepoint bracket: only the error flag is the body's -/
 theorem sp_rolled_back_eq (cfg : Cfg) (s : St) (body : List Ev)
